@@ -100,4 +100,20 @@ def run(chk, prog):
     t = rr.ret
     okt = is_t(t, "treemap") and t[2] == (P("tree"), P("tangent_tree")) and t[1] == ("ctor", "Diff", (("leaf", P("tree")), ("leaf", P("tangent_tree"))), ())
     chk.require(okt, "TAG-PAIRING", "Diff.tree_diff", "leafwise Diff(primal, tangent)", derived=show(t)[:200], expected="tree_map(Diff, tree, tangent_tree)", where=f"{D.module.rel}:{D.methods['tree_diff'].lineno}")
+    # every equation is re-bound under the configuration context it was traced in (jax.core.eval_jaxpr does `with eqn.ctx.manager:`): primitives such as
+    # random_split / random_bits choose their algorithm from the ambient config at BIND time, so a function traced inside `with jax.threefry_partitionable(..)`
+    # and interpreted outside it returns other keys / bits than ordinary evaluation
+    import ast as _ast
+    _ci = prog.cls("IncrementalInterpreter", "interpreters/incremental.py")
+    _fn = _ci.methods["eval_jaxpr_incremental"]
+    _loops = [n for n in _ast.walk(_fn) if isinstance(n, _ast.For)]
+    _okctx = False
+    for _lp in _loops:
+        _withs = [n for n in _ast.walk(_lp) if isinstance(n, _ast.With) and any(_ast.unparse(it.context_expr).endswith(".ctx.manager") for it in n.items)]
+        _binds_outside = [n for n in _ast.walk(_lp) if isinstance(n, _ast.Call) and isinstance(n.func, _ast.Attribute) and n.func.attr in ("bind", "dispatch") or (isinstance(n, _ast.Call) and _ast.unparse(n.func).endswith("default_propagation_rule"))]
+        _inside = {id(x) for w_ in _withs for x in _ast.walk(w_)}
+        if _binds_outside and all(id(b_) in _inside for b_ in _binds_outside):
+            _okctx = True
+    chk.require(_okctx, "INTERP-SKELETON", "eval_jaxpr_incremental/bind-context", "configuration context of the re-bound equations", derived="bind / dispatch " + ("inside" if _okctx else "outside") + " `with eqn.ctx.manager`",
+                expected="with eqn.ctx.manager: <dispatch or bind>", where=chk.where(_ci.module, _fn))
     chk.explanation = "loop skeleton of the incremental interpreter by dataflow, NoChange wrapping of constants/literals, the propagation rule, pairing of primal and tangent trees"
